@@ -15,6 +15,12 @@
 // counter(pages) in the flow, which forces several pagination rounds) and a flow of four blocks
 // under the break × out-of-flow sub-menu. Generated text is rendered text of its element's flow;
 // a floated first letter and a footnote body are flows of their own.
+//
+// Third generation (same lattice): block kinds for table rows that are split between pages while the
+// continuing cell is not at its grid column (it follows a colspan cell, or stands beside a rowspan cell
+// of the row above), and for automatic hyphenation (hyphens:auto, lang=en: dictionary words with
+// punctuation glued to them, a soft hyphen, a word inside a span). A line that ends with the
+// hyphenate-character continues its word on the next line of the flow.
 package c02
 
 import (
@@ -62,7 +68,7 @@ func devSets(sk []blockSpec, level int, m, need []int) [][]dev {
 	var all []dev
 	for s, b := range sk {
 		for _, d := range m {
-			if menu[d].Target == tInner && !hasInner(b.Kind) {
+			if menu[d].Target == tInner && !hasInner(b) {
 				continue
 			}
 			all = append(all, dev{s, d})
@@ -183,13 +189,32 @@ func (c *check) plan(tier string) {
 		}
 		extQ = append(extQ, sk)
 	}
+	// third generation: tables with spanning cells and a long cell (split rows), hyphenated blocks
+	var gen3, gen3One [][]blockSpec
+	for k := nKindsAll; k < nKinds3; k++ {
+		for _, n := range wordCounts {
+			gen3One = append(gen3One, []blockSpec{{k, n}})
+		}
+		// the block starts at every offset of the page, ends before another block, sits beside each table kind
+		gen3 = append(gen3, []blockSpec{{kP, 3}, {k, 5}}, []blockSpec{{kP, 1}, {k, 9}}, []blockSpec{{k, 9}, {kP, 3}}, []blockSpec{{k, 5}, {kP, 1}},
+			[]blockSpec{{kDivP, 3}, {k, 9}}, []blockSpec{{k, 5}, {kTable, 5}}, []blockSpec{{kP, 3}, {k, 5}, {kP, 3}})
+	}
+	gen3 = append(append([][]blockSpec(nil), gen3One...), gen3...)
+	gen3 = append(gen3, []blockSpec{{kColspan, 5}, {kRowspan, 9}}, []blockSpec{{kRowspan, 5}, {kHyph, 3}}, []blockSpec{{kHyph, 5}, {kColspan, 9}})
+	// the skeletons the deviation menus are applied to
+	kindsGen3 := [][]blockSpec{{{kColspan, 5}}, {{kColspan, 9}}, {{kRowspan, 5}}, {{kRowspan, 9}}, {{kHyph, 3}}, {{kHyph, 5}}, {{kP, 3}, {kColspan, 5}}}
+	kindsGen3T := append(append([][]blockSpec(nil), kindsGen3...), []blockSpec{{kHyph, 9}}, []blockSpec{{kP, 3}, {kRowspan, 5}}, []blockSpec{{kP, 1}, {kHyph, 5}}, []blockSpec{{kColspan, 3}}, []blockSpec{{kRowspan, 3}}, []blockSpec{{kHyph, 1}},
+		[]blockSpec{{kRowspan, 9}, {kP, 3}}, []blockSpec{{kColspan, 9}, {kP, 3}})
 	if tier == "quick" {
 		c.groups = []*group{
 			{Name: "L0-all", Skeletons: all, Widths: widthsAll, Level: 0, Menu: menuGen1Quick, Sweep: full},
 			{Name: "L0-inline", Skeletons: extQ, Widths: widthsExt, Level: 0, Menu: menuGen1Quick, Sweep: full},
+			{Name: "L0-spans-hyphens", Skeletons: gen3, Widths: widthsExt, Level: 0, Menu: menuGen1Quick, Sweep: full},
 			{Name: "L1-kinds", Skeletons: kinds, Widths: widthsAll, Level: 1, Menu: menuGen1Quick, Sweep: full},
 			{Name: "L1-inline-kinds", Skeletons: kindsExt, Widths: []int{30, 50, 80}, Level: 1, Menu: menuGen1Quick, Sweep: full},
 			{Name: "L1-pseudo-inner", Skeletons: kindsGen2, Widths: []int{30, 50, 80}, Level: 1, Menu: menuGen2, Sweep: full},
+			{Name: "L1-spans-hyphens", Skeletons: kindsGen3, Widths: []int{30, 50, 80}, Level: 1, Menu: menuGen1Quick, Sweep: full},
+			{Name: "L1-spans-hyphens-pseudo-inner", Skeletons: kindsGen3, Widths: []int{30, 50, 80}, Level: 1, Menu: menuGen2, Sweep: lite},
 			{Name: "L2-primary", Skeletons: primary, Widths: []int{50}, Level: 2, Menu: menuGen1Quick, Sweep: full},
 			{Name: "L2-secondary", Skeletons: secondary, Widths: []int{50}, Level: 2, Menu: menuGen1Quick, Sweep: full},
 			{Name: "L2-pseudo-inner", Skeletons: primaryExt, Widths: []int{50}, Level: 2, Menu: menuQ, Need: menuGen2, Sweep: lite},
@@ -203,6 +228,9 @@ func (c *check) plan(tier string) {
 		c.groups = []*group{
 			{Name: "L0-all", Skeletons: all, Widths: widthsAll, Level: 0, Menu: menuGen1, Sweep: full},
 			{Name: "L0-inline", Skeletons: allExt, Widths: widthsExt, Level: 0, Menu: menuGen1, Sweep: full},
+			{Name: "L0-spans-hyphens", Skeletons: gen3, Widths: widthsExt, Level: 0, Menu: menuGen1, Sweep: full},
+			{Name: "L1-spans-hyphens", Skeletons: kindsGen3T, Widths: widthsExt, Level: 1, Menu: menuGen1, Sweep: full},
+			{Name: "L1-spans-hyphens-pseudo-inner", Skeletons: kindsGen3T, Widths: []int{30, 50, 80}, Level: 1, Menu: menuGen2, Sweep: full},
 			{Name: "L1-all", Skeletons: all, Widths: widthsAll, Level: 1, Menu: menuGen1, Sweep: full},
 			{Name: "L1-inline-all", Skeletons: extQ, Widths: []int{30, 50, 80}, Level: 1, Menu: menuGen1, Sweep: full},
 			{Name: "L1-pseudo-inner", Skeletons: gen2T, Widths: widthsAll, Level: 1, Menu: menuGen2, Sweep: full},
@@ -220,7 +248,7 @@ func (c *check) plan(tier string) {
 		for _, s := range g.Skeletons {
 			key := fmt.Sprint(len(s))
 			for _, b := range s {
-				if hasInner(b.Kind) {
+				if hasInner(b) {
 					key += "i"
 				} else {
 					key += "-"
@@ -263,8 +291,8 @@ func (c *check) Init(tier string, seed int64) engine.Space {
 		Bounds: map[string]any{"groups": gs, "block_kinds": kindName, "words_per_block": wordCounts, "page_heights_px": heightsAll,
 			"page_widths_px": widthsExt, "orphans_widows": owFull, "deviation_menu": mn, "reference_selftest": ref},
 		Assumptions: []string{
-			"all block sizes are automatic; explicit heights, RTL and hyphenation are outside the alphabet",
-			"text is made of distinct two-letter ASCII words in the Ahem font (10px/1): every letter occurs once in a document",
+			"all block sizes are automatic; explicit heights and RTL are outside the alphabet; hyphenation: hyphens:auto with the English dictionary and soft hyphens in the blocks of kind hyph only",
+			"text is made of distinct two-letter ASCII words in the Ahem font (10px/1): every letter occurs once in a document (the blocks of kind hyph add dictionary words with punctuation glued to them; the hyphenate-character is a character of no source text and a line that ends with it continues its word on the next line)",
 			"order is asserted inside a flow only (main flow; each float, absolutely positioned box, running/fixed element, table cell, footnote body and floated ::first-letter is a flow of its own)",
 			"a footnote called from a running element is not compared (page-margin boxes have no footnote area: the specifications leave its place open)",
 			"list markers, footnote calls and footnote markers are counters: they take part in the draw-call clauses only; ::before/::after text is rendered text of its element's flow (a counter(pages) value is compared as a number of any value)",
